@@ -113,6 +113,9 @@ def run_country(shard, mon: Mon):
             good = b[2:4]
             for pair in ("AA", "0A", "A0", "٠٠", "１２", good[0] + "²", "  ", "", good[::-1], good + good):
                 judge.judge_iban_accept(mon, cc + pair + bban, table, "W4x")
+        # printed labels around a valid value
+        for t in gen.labelled(bases[0]) + gen.labelled(" ".join(bases[0][i : i + 4] for i in range(0, len(bases[0]), 4)))[:6]:
+            judge.judge_iban_accept(mon, t, table, "W6label")
         # W6 decoration of valid and invalid
         for b in bases[: sz["deco"]]:
             for t in gen.decorate(b, rng):
